@@ -513,6 +513,15 @@ func (b *Builder) of1(v ssa.Value, at ssa.Instruction, depth int) *Term {
 	switch x := v.(type) {
 	case *ssa.Parameter:
 		if t, ok := b.Bind[x]; ok {
+			// the caller's object, followed by what this function has done to it so far
+			if b.isObjectType(x.Type()) && at != nil {
+				if h := b.history(v, at, depth); len(h) > 0 {
+					if t.Op == "obj" {
+						return &Term{Op: "obj", V: v, Args: append(append([]*Term{}, t.Args...), h...)}
+					}
+					return &Term{Op: "obj", V: v, Args: append([]*Term{t}, h...)}
+				}
+			}
 			return t
 		}
 		if b.Fn != nil {
